@@ -10,10 +10,10 @@ P = {
     "C22.h": "ws modifier: by evaluation over strings with and without escapes, the rule's whitespace set is exactly the characters the modifier names (newline iff \\n, carriage return iff \\r, tab iff \\t, blank iff a blank)",
     "C01.i": "attribute type over repeated assignments: the type recorded by the first assignment and the type later assignments are compared with are the same expression",
     "C01.j": "by evaluation of _init_obj_attrs on instances of a user class with class-level attributes named like grammar attributes: the object itself gets every attribute of its rule - a new empty list per list attribute (not shared between objects or attributes), False for ?=, None for references, None or (auto_init_attributes) the base type's default for base types",
-    "C01.a": "operator dispatch table (repeat operators, assignment operators, syntactic predicates) -> Arpeggio class / multiplicity agrees with docs and with the reader in process_node",
-    "C01.b": "repetition-modifier keys written by visit_repeat_modifiers are consumed by both readers; modifiers on ?/=/?= are rejected",
+    "C01.a": "by evaluation of the grammar visitors on sample children: e? e* e+ (seq)# build Optional / ZeroOrMore / OneOrMore / UnorderedGroup, '-' sets suppress, !e / &e build Not / And; a= a+= a*= a?= build the documented root assignment rules with multiplicity, bool flag and type; a link makes a non-containment reference carrying provider, match rule and target; misuse (# on a non-sequence, second ?=) is a TextX error",
+    "C01.b": "by evaluation of the modifier pipeline (visit_repeat_modifiers -> visit_repeat_operator -> visit_repeatable_expr / visit_assignment): a separator becomes the repetition's sep (named sep), eolterm its eolterm flag, each independent of the other; modifiers on ? = ?= are TextXSyntaxErrors",
     "C01.c": "rule modifiers (ws/skipws) are installed only on expressions whose _parse honours them (Sequence subclasses)",
-    "C01.d": "model parser wraps the start rule with EOF and every parser option of the metamodel is forwarded under its own name",
+    "C01.d": "by evaluation of visit_textx_model with a recording stand-in for get_model_parser: every parser option of the meta-model arrives under its own name (not the grammar parser's), the first rule and the Comment rule's expression are handed over, the parser gets the meta-model; the model parser wraps the start rule with EOF",
     "C01.e": "attribute default table of _init_obj_attrs agrees with the documented defaults; python_type covers the base types",
     "C23.c": "(shared with C23) visitor methods subscript/iterate only non-terminal nodes",
     "C01.h": "a suppressed rule reference is wrapped whether or not the referenced rule still had to be resolved",
@@ -43,7 +43,7 @@ P = {
     "C03.b": "inside the change-driven fixpoint of _determine_rule_types every derived fact is recomputed each pass",
     "C03.c": "recursion over user-shaped cyclic graphs (_tx_inh_by, rule references) carries a visited set covering the recursive argument",
     "C03.d": "textx_isinstance decision table (OBJECT / instance / equal fqn / any inheritor)",
-    "C03.e": "NUMBER/BASETYPE inherits lists in metamodel.py equal the ordered choices in lang.py",
+    "C03.e": "by evaluation of the statements of TextXMetaModel.__init__ that create the base classes (recording stand-in for _new_class): NUMBER / BASETYPE inherit exactly their ordered choices of lang.py, OBJECT is abstract over BASETYPE",
     "C03.f": "abstract-rule result selection: the first referenced rule whose kind is not 'match' (guard evaluated over the three kinds)",
     "C03.g": "the fixpoint's change flag is sticky within a pass (only set to True) and reset once at the top of each pass",
     "C03.i": "(shared with C25.f) classes an alias/abstract rule is inherited by come from the referenced rule objects",
@@ -79,7 +79,7 @@ P = {
 "C06": dict(
   decided={
     "C06.e": "an object's _tx_position / _tx_position_end are the position / position_end of one and the same parse-tree node (the node the object is built from), unconditionally",
-    "C06.a": "get_location: parser and file name derive from get_model(model_obj), offsets from model_obj; nchar = end - start; keys line/col/nchar/filename; _tx_position/_tx_position_end are taken from .position/.position_end of the same node",
+    "C06.a": "by evaluation of get_location on a sample object two levels below its model: keys line/col/nchar/filename, line/col of the object's start converted by the parser of the model that contains it, that model's file name, nchar = end - start",
     "C06.b": "collected attributes (incl. _tx_position/_tx_position_end) are copied to user objects one by one; an unsettable attribute suppresses only itself",
     "C06.c": "the text handed to the parser is the caller's string, unmodified",
     "C06.d": "position arithmetic is Arpeggio's (a re-implementation in textX is an analysis error: numeric correctness is not decidable here)",
@@ -113,8 +113,8 @@ P = {
     "C08.b": "(shared with C08) the position table is per list, persistent across rounds and updated in parallel with the list",
     "C09.a": "conservation: every cross-reference taken from the work list ends in exactly one of re-queued / counted+stored / exception (all paths of the loop body)",
     "C09.b": "driver loop: condition conjoins 'unresolved > 0' and 'resolved this round > 0'; counters reset each iteration and fed only by resolve_one_step",
-    "C09.c": "the unresolved error is raised iff the counter is positive after the loop and names the same delayed lists",
-    "C09.d": "the report iterates each model's own delayed references",
+    "C09.c": "the unresolved error is raised iff the counter is positive after the loop; by evaluation of that branch: references left over end in a TextXSemanticError",
+    "C09.d": "by evaluation of the failure branch over three sample models (two with unresolved references of their own, one without): each unresolved reference of each model is named once, with the line/column its own model's parser gives",
     "C07.b": "(shared with C07) a Postponed result is never replaced by a builtin nor stored",
   },
   declined="'succeeds exactly when some order resolves everything' and order independence (depend on provider semantics)",
@@ -356,7 +356,7 @@ P = {
     "C28.f": "an error's location fields are assigned only by the exception constructors, TextXMetaModel.process and the resolver's handler (the sites that fill a location-less error completely)",
     "C28.a": "at every pos_to_linecol site the parser and the offset belong to the same model (ownership pairing); provider call sites hand over the owner of the reference",
     "C28.b": "each raise site passes line, col and filename of the owner",
-    "C28.c": "the location fields of one raise are assigned in the same loop iteration",
+    "C28.c": "the location fields of one raise are assigned in the same loop iteration; by evaluation of the unresolved-reference branch: line, col and filename of the error belong to one and the same reference",
     "C28.d": "the resolver fills a provider error's location only where it has none",
     "C28.e": "every scope-provider call of the resolver (attached, registered or default provider) lies inside the try whose TextXError handler fills line, col and filename from the reference and re-raises",
     "C08.c": "(shared with C08) every list reference carries the position of its own element, so its error is located at that element",
@@ -388,7 +388,7 @@ P = {
   technique="key-normalisation dataflow + decision table + handler discipline"),
 "C31": dict(
   decided={
-    "C31.d": "in generators.py an exporter is used only as gen_file's callback (partial(...) or a call inside the local callback) and writes the very file expression gen_file guards","C31.a": "obligation O5: an output file opened for writing is removed on every exceptional exit up to gen_file (or written via temp + os.replace)",
+    "C31.d": "by evaluation of every generator function of generators.py that mentions an exporter (overwrite on and off; gen_file and the exporters are recording stand-ins): exporters run only as gen_file's callback and write the very file gen_file guards","C31.a": "obligation O5: an output file opened for writing is removed on every exceptional exit up to gen_file (or written via temp + os.replace)",
            "C31.b": "the handler removing the partial output is catch-all",
            "C31.c": "the built-in export writers let I/O errors of write/close propagate (nothing swallowed, file managed by with)"},
   declined="nothing else",
@@ -398,13 +398,13 @@ P = {
     "C32.e": "visit_assignment records the RREL provider and match rule of an object reference on the attribute under no further condition",
     "C32.d": "every ObjCrossRef takes scope_provider, match_rule_name and cls unchanged from one and the same attribute description",
     "C32.c": "a provider built from an RREL string and one built from a parsed grammar expression are configured alike: every read of the expression's flags (use_proxy, importURI) in create_rrel_scope_provider comes after the string was parsed","C32.a": "candidate key list is [Cls.attr, *.attr, Cls.*, *.*], scanned first-hit with default fallback; grammar RREL tested before the scan",
-           "C32.b": "register_scope_providers converts string values with the constructor the grammar path uses"},
+           "C32.b": "by evaluation of register_scope_providers on a sample table over an earlier registration: afterwards the table holds exactly the given keys, callables as given, every string replaced by the RREL provider made from it"},
   declined="nothing material",
   technique="abstract string classification of the key list + loop shape"),
 "C33": dict(
   decided={
     "C33.a": "TextXMetaModel.process fills each location field of get_location into the error, guarded by 'is None', and re-raises",
-    "C33.b": "processor dispatch passes the location of the processed object; textxerror_wrap re-raises TextXError unchanged and wraps others with the location",
+    "C33.b": "by evaluation: the processor dispatch hands metamodel.process the location of the processed object (bound the way process declares its parameters); textxerror_wrap re-raises a TextXError of the processor unchanged (same object, same fields) and wraps other exceptions into a TextXError located at the object",
     "C33.c": "the line/col handed to a match processor come from the start of the match on every reaching definition",
   },
   declined="numeric correctness of the location",
